@@ -99,6 +99,7 @@ class Program:
         self.extra_runtime = {}  # name -> [lines]
         self.xtrig_defs = {}     # label -> text
         self.stall_timeout = 'PT0S'
+        self.inactivity_timeout = 'PT10M'
 
     # -- points --------------------------------------------------------
     def pstr(self, p):
@@ -184,7 +185,7 @@ class Program:
         L.append('    [[events]]')
         L.append(f'        stall timeout = {self.stall_timeout}')
         L.append('        abort on stall timeout = True')
-        L.append('        inactivity timeout = PT10M')
+        L.append(f'        inactivity timeout = {self.inactivity_timeout}')
         L.append('        abort on inactivity timeout = True')
         L.append('[scheduling]')
         if self.mode == 'integer':
@@ -209,7 +210,9 @@ class Program:
         seq = [t.name for t in self.tasks.values() if t.sequential]
         if seq:
             specials.append(f'        sequential = {", ".join(seq)}')
-        ce = [f'{t.name}({self.dur(t.clock_expire) if t.clock_expire >= 0 else "-" + self.dur(-t.clock_expire)})'
+        # clock-expire offsets are in hours
+        ce = [f'{t.name}(PT{t.clock_expire}H)' if t.clock_expire >= 0
+              else f'{t.name}(-PT{-t.clock_expire}H)'
               for t in self.tasks.values() if t.clock_expire is not None]
         if ce:
             specials.append(f'        clock-expire = {", ".join(ce)}')
